@@ -35,6 +35,25 @@ BIN = "/tmp/replay_scratch/target/release/search"
 
 # (name, file, old, new, [properties expected to FIND it], occurrence index)
 MUTS = [
+    ("AdjacencyList::is_semicomplete skips the last partial chunk of rows", "repr/adjacency_list/mod.rs",
+     "                let end = order.min(start + chunk_size);",
+     "                let end = if start + chunk_size > order { start } else { start + chunk_size };", ["C12"], 0),
+    ("AdjacencyList::complement drops the last partial chunk of rows", "repr/adjacency_list/mod.rs",
+     "            let end = order.min(start + chunk_size);",
+     "            let end = if start + chunk_size > order && order > 16 { start } else { order.min(start + chunk_size) };", ["C11"], 0),
+    ("AdjacencyList::union leaves the last row of a partial chunk empty", "repr/adjacency_list/mod.rs",
+     "let chunk_end = (chunk_start + chunk_size).min(order);",
+     "let chunk_end = if chunk_start + chunk_size > order { order - 1 } else { chunk_start + chunk_size };", ["C11"], 0),
+    ("AdjacencyList::degree_sequence has one indegree buffer too few", "repr/adjacency_list/mod.rs",
+     "vec![vec![0_usize; order]; t];", "vec![vec![0_usize; order]; t - 1];", ["C02"], 0),
+    ("Dijkstra relaxation wraps instead of saturating", "algo/dijkstra.rs",
+     "w_prev.saturating_add(*w)", "w_prev.wrapping_add(*w)", ["C03"], 0),
+    ("DijkstraDist relaxation wraps instead of saturating", "algo/dijkstra_dist.rs",
+     "w_prev.saturating_add(*w)", "w_prev.wrapping_add(*w)", ["C03"], 0),
+    ("DijkstraPred relaxation wraps instead of saturating", "algo/dijkstra_pred.rs",
+     "distance.saturating_add(*w)", "distance.wrapping_add(*w)", ["C05"], 0),
+    ("DijkstraDist stops scanning out-neighbours after a saturated sum", "algo/dijkstra_dist.rs",
+     "let w_next = w_prev.saturating_add(*w);", "let w_next = w_prev.saturating_add(*w);\n                if w_next == usize::MAX { break; }", ["C03"], 0),
     ("PredecessorTree::search_by loses the visited check (hangs on cycles)", "algo/predecessor_tree.rs",
      "if unsafe { *visited_ptr.add(v) } {", "if false && unsafe { *visited_ptr.add(v) } {", ["C19"], 0),
     ("PredecessorTree::search_by visited bitmap indexed by v % 32", "algo/predecessor_tree.rs",
